@@ -328,7 +328,7 @@ def _motion(ctx, prog):
     for deg, selv in worlds:
         r = Interp(prog).run(f, dict(extra, **{SEL: selv}))
         ctx.analysed["configs"] += 1
-        ret = r.ret
+        ret = _prefixed_loopout(r.ret)
         if ret.op != "loopout":
             ctx.undecidable("C11.2", f, f"kept-id list is not built in a "
                             f"loop: {fmt(ret)}")
@@ -664,6 +664,33 @@ def _unit_forwarding(prog, m, got, worlds) -> bool:
         if v is not fv:
             return False
     return True
+
+
+def _prefixed_loopout(ret: T) -> T:
+    """`[0] + list(<list grown from [] by appends in a loop>)` is the list
+    grown from [0] by the same appends — as long as the loop never reads the
+    list it grows (no kept[-1])"""
+    u = Interp.unname(ret)
+    if not (u.op == "binop" and u.args[0] == "Add"):
+        return ret
+    head, tail = Interp.unname(u.args[1]), Interp.unname(u.args[2])
+    if is_call_to(tail, "builtins.list") and len(tail.args[1]) == 1 and \
+            not tail.args[2]:
+        tail = Interp.unname(tail.args[1][0])
+    if head.op != "list" or tail.op != "loopout":
+        return ret
+    name, lid, init, upd = tail.args
+    if not (init.op == "list" and not init.args):
+        return ret
+    lv = [x for x in upd.walk() if x.op == "loopvar" and x.args[0] == name]
+    reads = [x for x in upd.walk() if x.op in ("sub", "attr", "call") and
+             x.op != "mut" and any(
+                 (a is v) for v in lv for a in (
+                     x.args[:1] if x.op in ("sub", "attr") else
+                     tuple(x.args[1]) + tuple(w for _, w in x.args[2])))]
+    if reads:
+        return ret
+    return T("loopout", name, lid, head, upd)
 
 
 def _canonical_candidates(it: Optional[T], lid: int, poses: T, accf: str):
